@@ -1,7 +1,9 @@
 (* C12: the whole require() recursion only touches paths under the directory of a requiring file or a
-   directory named by the load path - the extracted monitor's predicate holds of the model's trace. *)
+   directory designated by the load path - for ANY load path (roots: Spec/LoadPathSpec.require_roots_general);
+   for load paths whose patterns have climb 0 (all sane patterns, and e.g. ?/?.lua) these are the roots of the
+   extracted monitor, so its predicate holds of the model's trace. *)
 From PV Require Import Base.Prelude Model.Paths Model.Require Model.FilesInst Model.RequireWalk
-  Spec.PathSpec Proofs.PathProofs Proofs.RequireProofs.
+  Spec.PathSpec Spec.LoadPathSpec Proofs.PathProofs Proofs.RequireProofs Proofs.RequireGeneral.
 
 Definition to_event (e : wev) : event := (if fst e then OpenRead else Probe, snd e).
 
@@ -9,14 +11,13 @@ Section WalkSafe.
 Variable requires_of : bytes -> list bytes.
 Variable isfile : bytes -> bool.
 Variable lua_path cwd : bytes.
-Hypothesis sane : forallb pattern_saneb (split_on 59 lua_path) = true.
 
 Notation pats := (split_on 59 lua_path).
-Notation grow := (require_roots pats).
+Notation grow := (require_roots_general pats).
 
 (* the roots in force cover everything a requiring file may reach *)
 Definition covers (roots : list bytes) (f : bytes) : Prop :=
-  forall p pat, In pat pats -> under cwd (pattern_dir (dirname f) pat) p -> under_any cwd roots p = true.
+  forall p pat, In pat pats -> under cwd (pattern_root (dirname f) pat) p -> under_any cwd roots p = true.
 
 Lemma under_any_app cwd' a b p : under_any cwd' (a ++ b) p = under_any cwd' a p || under_any cwd' b p.
 Proof. unfold under_any. apply existsb_app. Qed.
@@ -42,11 +43,15 @@ Proof.
     rewrite !stack_app_slash by assumption. rewrite Hs. reflexivity.
 Qed.
 
+Lemma stack_pattern_root f pat :
+  stack cwd (pattern_root (dirname f) pat) = stack cwd (pattern_root (dir_part f) pat).
+Proof. rewrite !stack_root, stack_pattern_dir. reflexivity. Qed.
+
 Lemma covers_own f : covers (grow f) f.
 Proof.
-  intros p pat Hp Hu. unfold under_any, require_roots. cbn [existsb]. apply orb_true_iff. right.
-  apply existsb_exists. exists (pattern_dir (dir_part f) pat). split; [apply in_map; exact Hp|].
-  apply underb_spec. unfold under in *. rewrite !locate_stack in *. rewrite <- stack_pattern_dir. exact Hu.
+  intros p pat Hp Hu. unfold under_any, require_roots_general. cbn [existsb]. apply orb_true_iff. right.
+  apply existsb_exists. exists (pattern_root (dir_part f) pat). split; [apply in_map; exact Hp|].
+  apply underb_spec. unfold under in *. rewrite !locate_stack in *. rewrite <- stack_pattern_root. exact Hu.
 Qed.
 
 Lemma growing_app grow' roots t1 t2 :
@@ -86,7 +91,7 @@ Proof.
   intros Hc Hf. induction l as [|p l IH]; intros Hin; [reflexivity|].
   cbn [map to_event probe_ev fst snd all_opens_under_growing]. rewrite IH by (intros q Hq; apply Hin; right; exact Hq).
   rewrite andb_true_r.
-  destruct (candidates_contained cwd f lua_path req p Hf sane (Hin p (or_introl eq_refl))) as (pat & Hp & Hu).
+  destruct (candidates_contained_general cwd f lua_path req p Hf (Hin p (or_introl eq_refl))) as (pat & Hp & Hu).
   exact (Hc p pat Hp Hu).
 Qed.
 
@@ -107,7 +112,7 @@ Proof.
   { generalize (probes isfile cands). intros l. induction l as [|p l IHl]; [reflexivity|]. exact IHl. }
   destruct (first_file isfile cands) as [p|] eqn:Eff; [|exact Hpr].
   assert (Hp : under_any cwd roots p = true).
-  { destruct (candidates_contained cwd f lua_path req p Hf sane (first_file_in cands p Eff)) as (pat & Hpat & Hu).
+  { destruct (candidates_contained_general cwd f lua_path req p Hf (first_file_in cands p Eff)) as (pat & Hpat & Hu).
     exact (Hc p pat Hpat Hu). }
   destruct (req_walk requires_of isfile lua_path k p (requires_of p) (req :: loaded)) as [t1 r1] eqn:E1.
   assert (H1 : all_opens_under_growing cwd grow (grow p ++ roots) (map to_event t1) = true).
@@ -143,11 +148,50 @@ Proof.
   unfold relevant. induction tr as [|e r IH]; [reflexivity|]. cbn [filter]. unfold mentions at 1. cbn [existsb negb]. f_equal. exact IH.
 Qed.
 
+(* two root functions that agree give the same verdict *)
+Lemma growing_ext cwd g1 g2 :
+  (forall p, g1 p = g2 p) ->
+  forall tr roots, all_opens_under_growing cwd g1 roots tr = all_opens_under_growing cwd g2 roots tr.
+Proof.
+  intros H. induction tr as [|[a p] tr IH]; intros roots; [reflexivity|].
+  cbn [all_opens_under_growing]. destruct a; rewrite ?H, IH; reflexivity.
+Qed.
+
+Lemma roots_general_flat pats f :
+  forallb pattern_flatb pats = true -> require_roots_general pats f = require_roots pats f.
+Proof.
+  intros H. unfold require_roots_general, require_roots. f_equal. apply map_ext_in.
+  intros pat Hpat. rewrite forallb_forall in H. specialize (H pat Hpat). apply Nat.eqb_eq in H.
+  apply pattern_root_climb0. exact H.
+Qed.
+
+(* ANY load path: the trace of the model satisfies the predicate the monitor evaluates *)
 Lemma require_model_holds requires_of isfile lua_path cwd fuel main :
-  forallb pattern_saneb (split_on 59 lua_path) = true ->
   holds_C12_require cwd lua_path main []
     (map to_event (fst (evaluate_require requires_of isfile lua_path fuel main))) = true.
 Proof.
-  intros Hs. unfold holds_C12_require. rewrite relevant_nil, load_path_patterns_split.
-  apply evaluate_require_safe. exact Hs.
+  unfold holds_C12_require. rewrite relevant_nil, load_path_patterns_split. apply evaluate_require_safe.
+Qed.
+
+(* load paths of climb 0 (all sane ones): the monitor's roots are PathSpec.require_roots, i.e. the directory of
+   each requiring file and pattern_dir of each pattern, and its verdict is the one computed with them *)
+Lemma holds_require_flat cwd lua_path main explicit tr :
+  forallb pattern_flatb (split_on 59 lua_path) = true ->
+  holds_C12_require cwd lua_path main explicit tr
+  = all_opens_under_growing cwd (require_roots (split_on 59 lua_path)) (require_roots (split_on 59 lua_path) main)
+      (relevant explicit tr).
+Proof.
+  intros Hs. unfold holds_C12_require. rewrite load_path_patterns_split.
+  rewrite (roots_general_flat _ main Hs).
+  apply growing_ext. intros p. apply roots_general_flat. exact Hs.
+Qed.
+
+Lemma holds_require_sane cwd lua_path main explicit tr :
+  forallb pattern_saneb (split_on 59 lua_path) = true ->
+  holds_C12_require cwd lua_path main explicit tr
+  = all_opens_under_growing cwd (require_roots (split_on 59 lua_path)) (require_roots (split_on 59 lua_path) main)
+      (relevant explicit tr).
+Proof.
+  intros Hs. apply holds_require_flat. rewrite forallb_forall in *.
+  intros pat Hpat. apply sane_flat, Hs, Hpat.
 Qed.
